@@ -2,7 +2,7 @@
    ADD-based oracle (compile, boundary diagrams, restrict, sum, modelcount) is the Shapley value of the KNN game. *)
 From Coq Require Import List Arith ZArith QArith Lia Bool Setoid.
 From DS Require Import Util.SumQ Spec.Shapley Model.ADD Spec.Count Spec.Knn Model.Oracle Model.ShapleyAdd
-     Proofs.ShapleyAxioms Proofs.KernelFull Proofs.KnnShapley Proofs.OracleExact Proofs.OracleValid.
+     Proofs.ShapleyAxioms Proofs.KernelFull Proofs.KnnShapley Proofs.OracleExact Proofs.OracleValid Proofs.CompileValid.
 Import ListNotations.
 Local Open Scope Q_scope.
 
@@ -62,4 +62,26 @@ Proof.
   apply in_combine_l in Ht. apply in_combine_l in Ht.
   apply shapley_add_point_ext; [|exact Hi]. intros i' t1 t2 Hi'. unfold oracle_of.
   rewrite (oracle_exact_validated _ d locs i' t1 t2 (Hv ds Ht)); [reflexivity|exact Hn|exact Hi'].
+Qed.
+
+(* any conjunctive provenance through the MODEL of compile(): for every admissible component structure (hints_ok) the loop
+   over the oracle built on the modelled diagram and row locations is the Shapley value *)
+Theorem add_compile_is_shapley n K C rows labels dists ucols nulls comps i :
+  (2 <= n)%nat -> (i < n)%nat -> (1 <= K)%nat ->
+  hints_ok n rows comps = true ->
+  (forall r, (r < length rows)%nat -> (nth r labels 0 < C)%nat) ->
+  (forall ds, In ds dists -> length ds = length rows /\ NoDup (map Qred ds)) ->
+  nth i (shapley_add (map (fun ds => mkProb n rows labels ds (n - 1) K C) dists)
+                     (map (fun p => oracle_of p (compile_add (p_type p) comps) (map (row_locs 0 comps) (p_rows p)))
+                          (map (fun ds => mkProb n rows labels ds (n - 1) K C) dists)) ucols nulls n) 0
+  == shapley n (v_knn K C rows labels dists ucols nulls) i.
+Proof.
+  intros Hn Hi HK Hh Hlab Hd. rewrite <- (add_is_shapley n K C rows labels dists ucols nulls i Hi HK Hlab Hd).
+  unfold shapley_add. rewrite !map_nth_seq by exact Hi.
+  rewrite (combine_points (fun p o uc nl => nth i (shapley_add_point p o uc nl) 0) (fun ds => mkProb n rows labels ds (n - 1) K C)
+                          (fun p => oracle_of p (compile_add (p_type p) comps) (map (row_locs 0 comps) (p_rows p)))).
+  rewrite (combine_points (fun p o uc nl => nth i (shapley_add_point p o uc nl) 0) (fun ds => mkProb n rows labels ds (n - 1) K C) (fun p => count_spec p)).
+  apply Qmult_comp; [|reflexivity]. apply sumQ_ext. intros [[ds u] nl] Ht. cbn [fst snd].
+  apply shapley_add_point_ext; [|exact Hi]. intros i' t1 t2 Hi'. unfold oracle_of.
+  rewrite (oracle_compile_exact (mkProb n rows labels ds (n - 1) K C) comps i' t1 t2); [reflexivity|exact Hh|exact Hn|exact Hi'].
 Qed.
